@@ -210,7 +210,7 @@ def gen_case(rng, maxL, maxN, tier):
             c['invalid'] = True
             if rng.random() < 0.5: l = sigma / 2 * rng.uniform(0.3, 1.0); lp = 5.0
             else:
-                l = sigma * rng.uniform(0.6, 1.5); lp = (4 * l ** 3) / (4 * l ** 2 - sigma ** 2) * rng.uniform(0.3, 0.999)
+                l = sigma * rng.uniform(0.6, 1.5); lp = (4 * l ** 3) / (4 * l ** 2 - sigma ** 2) * rng.choice([rng.uniform(0.3, 0.999), 1 - 8e-4, 1 - 1e-4, 1 - 1e-6, 1 - 1e-9])
         else:
             l = sigma * rng.uniform(0.75, 1.5); lpmin = (4 * l ** 3) / (4 * l ** 2 - sigma ** 2)
             lp = lpmin * rng.choice([1.0, 1.0005, rng.uniform(1.002, 1.5), rng.uniform(1.5, 4.0)])
